@@ -150,6 +150,48 @@ def p1_promote_law(F, r):
                             r.ok(inst, f"keeps {side}; {p.ret[1]}")
 
 
+def s1_stale_routes_are_evaluated(F, r):
+    """completeness: the `this job already failed here` shortcut of eval_job_insertion_in_route may skip the evaluation only for an UNMODIFIED route (is_stale() == false);
+    from the `stale` edge every path to a return passes the route-level goal evaluation — a job that failed before is tried again on every tour that changed since"""
+    fid = F.find1("evaluators::eval_job_insertion_in_route")
+    fn = F.fns[fid]
+    st = [bi for bi, t in mir.calls(fn) if t["callee"].endswith("RouteContext::is_stale")]
+    ev = [bi for bi, t in mir.calls(fn) if t["callee"].endswith("::evaluate") and "goal" in t["callee"].lower()]
+    if not ev:
+        raise AnchorError("eval_job_insertion_in_route: no goal evaluation")
+    rets = set(mir.ret_blocks(fn))
+    if not st:
+        # no staleness shortcut: every return must pass the evaluation
+        if rets & mir.reach(fn, [0], blocked=ev):
+            r.fail("eval_job_insertion_in_route: shortcut", "a return is reachable without the route-level evaluation although the route's staleness is not consulted", F.loc(fid))
+        else:
+            r.ok("eval_job_insertion_in_route: shortcut", "no shortcut: every return passes the goal evaluation")
+        return
+    # every return that skips the evaluation lies behind the FALSE edge of a switch on the staleness flag (tested directly, or as a component of the matched tuple)
+    false_edges = []
+    for sb, bb in enumerate(fn["bbs"]):
+        tt = bb["t"]
+        if tt["k"] != "switch" or not mir.is_place(tt["o"]):
+            continue
+        e_ = mir.expr(fn, tt["o"])
+        if any(k == "call" and v in st for k, v, p_ in mir.trace(fn, tt["o"])) or (e_[0][0] == "call" and e_[0][1].endswith("RouteContext::is_stale") and not e_[1]):
+            zero = [tb for v, tb in tt["tg"] if v == 0]
+            if zero:
+                false_edges.append((sb, zero[0]))
+    if not false_edges:
+        if rets & mir.reach(fn, [0], blocked=ev):
+            r.fail("eval_job_insertion_in_route: shortcut", "a return skips the route-level evaluation and the staleness flag is never branched on: a job that failed earlier is not evaluated "
+                   "against a tour that has changed since", F.loc(fid))
+        else:
+            r.ok("eval_job_insertion_in_route: shortcut", "no shortcut: every return passes the goal evaluation")
+        return
+    if rets & mir.reach(fn, [0], blocked=ev, blocked_edges=false_edges):
+        r.fail("eval_job_insertion_in_route: shortcut", "a return is reachable without the route-level goal evaluation and without the route being found UNMODIFIED (is_stale() == false): a job "
+               "that failed earlier is not evaluated against a tour that has changed since, so exhaustive insertion reports failure although a feasible position exists", F.loc(fid))
+    else:
+        r.ok("eval_job_insertion_in_route: shortcut", "the evaluation is skipped only for an unmodified route; a stale route is always evaluated")
+
+
 def run(ctx):
     ctx.explanation = (
         "Soundness gate of the insertion evaluator: a reported success was evaluated by the complete constraint set on exactly that move on activity and "
@@ -158,12 +200,14 @@ def run(ctx):
         "is evaluated over all orderings of the values it compares (W1): a position is admitted iff no arrival is after its latest time and the shift covers the "
         "windows, and the scan-aborting `fail` verdict is only raised on facts that do not involve the arrival at the target (completeness of the exhaustive scan "
         "w.r.t. time windows); can_fit is exactly `load <= capacity` per dimension and is asked the right way round (O3/O4).")
+    ctx.explanation += ' The `already failed` shortcut of eval_job_insertion_in_route skips the evaluation only behind the false edge of is_stale() (S1: a stale route is always evaluated).'
     ctx.not_decided = ("completeness (`fails only if no feasible position exists`) rests on the semantic correctness of each feature's `stopped` flag and of the O(1) "
                        "summaries — value-level; equality with an independent simulation.")
     ctx.run("C01-G1", "activity-level gate", c01.g1_activity_gate, floor=1)
     ctx.run("C01-G2", "route-level gate", c01.g2_route_gate, floor=2)
     ctx.run("C01-G3", "success construction", c01.g3_success_construction, floor=12)
     ctx.run("C05-I1", "shadow insertion followed by accept_route_state", c05.i1_insert_then_accept, floor=2)
+    ctx.run("C06-S1", "the `already failed` shortcut skips the evaluation only for unmodified routes", s1_stale_routes_are_evaluated, floor=1)
     ctx.run("C06-E1", "exhaustive scan: aborted only on `stopped`; every leg folded", e1_exhaustive_scan, floor=4)
     ctx.run("C06-P1", "multi-job search keeps the cheaper candidate (MultiContext::promote law, finite evaluation)", p1_promote_law, floor=15)
     ctx.run("C01-W1", "time windows: admitted iff no arrival after its latest time; the scan is aborted (fail) only on target-independent facts", c01.w1_time_window_law, floor=1)
